@@ -31,6 +31,8 @@ Proof.
   - split; [apply KV_insert; exact Ha|exact Hd].
   - split; [exact Ha|apply KV_insert; exact Hd].
   - exact inv_new.
+  - split; [intros k v Hin; apply Ha; eapply in_remove; exact Hin|exact Hd].
+  - split; [exact Ha|intros k v Hin; apply Hd; eapply in_remove; exact Hin].
 Qed.
 
 Lemma ffinal_snoc acts a : ffinal (acts ++ [a]) = fapply (ffinal acts) a.
@@ -46,6 +48,13 @@ Proof.
   rewrite !(in_keys_lookup String.eqb E). destruct (string_dec k p) as [->|N].
   - rewrite (lookup_insert_eq String.eqb E). split; [left; reflexivity|discriminate].
   - rewrite (lookup_insert_neq String.eqb E) by exact N. split; [right; assumption|intros [C|H]; [contradiction|exact H]].
+Qed.
+
+Lemma keys_remove k p (m : pmap) : In k (keys (prm p m)) <-> k <> p /\ In k (keys m).
+Proof.
+  rewrite !(in_keys_lookup String.eqb E). destruct (string_dec k p) as [->|N].
+  - rewrite (lookup_remove_eq String.eqb). split; [intros H; exfalso; apply H; reflexivity|intros [H _]; exfalso; apply H; reflexivity].
+  - rewrite (lookup_remove_neq String.eqb E) by exact N. split; [intros H; split; assumption|intros [_ H]; exact H].
 Qed.
 
 Lemma in_keys_KV (m : pmap) k : KV m -> (In k (keys m) <-> In (k, k) m).
@@ -65,59 +74,72 @@ Lemma insert_idem p (m : pmap) : pins p p (pins p p m) = pins p p m.
 Proof. unfold insert. cbn. rewrite String.eqb_refl, remove_idem. reflexivity. Qed.
 
 (* ---------------------------------------------------------------- which patterns are in force *)
-(* p was named by an Accept (Deny) command and no Reset came after it *)
-Definition accept_in_force (p : string) (acts : list faction) : Prop :=
-  exists a1 a2, acts = a1 ++ Accept p :: a2 /\ ~ In Reset a2.
-Definition deny_in_force (p : string) (acts : list faction) : Prop :=
-  exists a1 a2, acts = a1 ++ Deny p :: a2 /\ ~ In Reset a2.
+(* p was named by an Accept (Deny) and nothing after it took it back: no Reset, no delete of p *)
+Definition kills_accept (p : string) (a : faction) : Prop := a = Reset \/ a = DelAccept p.
+Definition kills_deny (p : string) (a : faction) : Prop := a = Reset \/ a = DelDeny p.
 
-Lemma in_force_snoc (mk : string -> faction) p acts a :
-  (exists a1 a2, acts ++ [a] = a1 ++ mk p :: a2 /\ ~ In Reset a2) <->
-  (a = mk p \/ (a <> Reset /\ exists a1 a2, acts = a1 ++ mk p :: a2 /\ ~ In Reset a2)).
+Definition accept_in_force (p : string) (acts : list faction) : Prop :=
+  exists a1 a2, acts = a1 ++ Accept p :: a2 /\ forall x, In x a2 -> ~ kills_accept p x.
+Definition deny_in_force (p : string) (acts : list faction) : Prop :=
+  exists a1 a2, acts = a1 ++ Deny p :: a2 /\ forall x, In x a2 -> ~ kills_deny p x.
+
+Lemma in_force_snoc (mk : faction) (kills : faction -> Prop) acts a :
+  (exists a1 a2, acts ++ [a] = a1 ++ mk :: a2 /\ forall x, In x a2 -> ~ kills x) <->
+  (a = mk \/ (~ kills a /\ exists a1 a2, acts = a1 ++ mk :: a2 /\ forall x, In x a2 -> ~ kills x)).
 Proof.
   split.
-  - intros (a1 & a2 & Eq & NR).
+  - intros (a1 & a2 & Eq & NK).
     destruct a2 as [|x a2] using rev_ind.
-    + left. change (a1 ++ [mk p]) with (a1 ++ [mk p]) in Eq. apply app_inj_tail in Eq as [_ ->]. reflexivity.
+    + left. apply app_inj_tail in Eq as [_ ->]. reflexivity.
     + clear IHa2. right.
-      replace (a1 ++ mk p :: a2 ++ [x]) with ((a1 ++ mk p :: a2) ++ [x]) in Eq by (rewrite <- app_assoc; reflexivity).
+      replace (a1 ++ mk :: a2 ++ [x]) with ((a1 ++ mk :: a2) ++ [x]) in Eq by (rewrite <- app_assoc; reflexivity).
       apply app_inj_tail in Eq as [-> ->]. split.
-      * intros ->. apply NR. apply in_or_app. right. left. reflexivity.
-      * exists a1, a2. split; [reflexivity|]. intros H. apply NR. apply in_or_app. left. exact H.
-  - intros [->|(NR & a1 & a2 & -> & NR2)].
-    + exists acts, []. split; [reflexivity|intros []].
+      * apply NK. apply in_or_app. right. left. reflexivity.
+      * exists a1, a2. split; [reflexivity|]. intros y H. apply NK. apply in_or_app. left. exact H.
+  - intros [->|(NK & a1 & a2 & -> & NK2)].
+    + exists acts, []. split; [reflexivity|intros x []].
     + exists a1, (a2 ++ [a]). split; [rewrite <- app_assoc; reflexivity|].
-      intros H. apply in_app_or in H as [H|[H|[]]]; [apply NR2; exact H|apply NR; exact H].
+      intros y H. apply in_app_or in H as [H|[H|[]]]; [apply NK2; exact H|subst y; exact NK].
 Qed.
 
-Lemma not_in_force_nil (mk : string -> faction) p :
-  ~ exists a1 a2, @nil faction = a1 ++ mk p :: a2 /\ ~ In Reset a2.
+Lemma not_in_force_nil (mk : faction) (kills : faction -> Prop) :
+  ~ exists a1 a2, @nil faction = a1 ++ mk :: a2 /\ forall x, In x a2 -> ~ kills x.
 Proof. intros (a1 & a2 & Eq & _). destruct a1; discriminate. Qed.
 
 Theorem accepts_are_in_force acts p : In p (keys (accepts (ffinal acts))) <-> accept_in_force p acts.
 Proof.
   unfold accept_in_force. induction acts as [|a acts IH] using rev_ind.
-  - split; [intros []|intros H; exfalso; exact (not_in_force_nil Accept p H)].
-  - rewrite ffinal_snoc, (in_force_snoc Accept). rewrite <- IH. destruct a as [q|q| |]; cbn [fapply accepts denies fnew].
+  - split; [intros []|intros H; exfalso; exact (not_in_force_nil _ _ H)].
+  - rewrite ffinal_snoc, (in_force_snoc (Accept p) (kills_accept p)). rewrite <- IH. unfold kills_accept.
+    destruct a as [q|q| | |q|q]; cbn [fapply accepts denies fnew].
     + rewrite keys_insert. split.
-      * intros [->|H]; [left; reflexivity|right; split; [discriminate|exact H]].
+      * intros [->|H]; [left; reflexivity|right; split; [intros [C|C]; discriminate|exact H]].
       * intros [H|[_ H]]; [injection H as ->; left; reflexivity|right; exact H].
-    + split; [intros H; right; split; [discriminate|exact H]|intros [H|[_ H]]; [discriminate|exact H]].
-    + split; [intros []|intros [H|[H _]]; [discriminate|contradiction]].
-    + split; [intros H; right; split; [discriminate|exact H]|intros [H|[_ H]]; [discriminate|exact H]].
+    + split; [intros H; right; split; [intros [C|C]; discriminate|exact H]|intros [H|[_ H]]; [discriminate|exact H]].
+    + split; [intros []|intros [H|[H _]]; [discriminate|exfalso; apply H; left; reflexivity]].
+    + split; [intros H; right; split; [intros [C|C]; discriminate|exact H]|intros [H|[_ H]]; [discriminate|exact H]].
+    + rewrite keys_remove. split.
+      * intros [N H]. right. split; [intros [C|C]; [discriminate|injection C as ->; apply N; reflexivity]|exact H].
+      * intros [H|[N H]]; [discriminate|]. split; [intros ->; apply N; right; reflexivity|exact H].
+    + split; [intros H; right; split; [intros [C|C]; discriminate|exact H]|intros [H|[_ H]]; [discriminate|exact H]].
 Qed.
 
 Theorem denies_are_in_force acts p : In p (keys (denies (ffinal acts))) <-> deny_in_force p acts.
 Proof.
   unfold deny_in_force. induction acts as [|a acts IH] using rev_ind.
-  - split; [intros []|intros H; exfalso; exact (not_in_force_nil Deny p H)].
-  - rewrite ffinal_snoc, (in_force_snoc Deny). rewrite <- IH. destruct a as [q|q| |]; cbn [fapply accepts denies fnew].
-    + split; [intros H; right; split; [discriminate|exact H]|intros [H|[_ H]]; [discriminate|exact H]].
+  - split; [intros []|intros H; exfalso; exact (not_in_force_nil _ _ H)].
+  - rewrite ffinal_snoc, (in_force_snoc (Deny p) (kills_deny p)). rewrite <- IH. unfold kills_deny.
+    destruct a as [q|q| | |q|q]; cbn [fapply accepts denies fnew].
+    + split; [intros H; right; split; [intros [C|C]; discriminate|exact H]|intros [H|[_ H]]; [discriminate|exact H]].
     + rewrite keys_insert. split.
-      * intros [->|H]; [left; reflexivity|right; split; [discriminate|exact H]].
+      * intros [->|H]; [left; reflexivity|right; split; [intros [C|C]; discriminate|exact H]].
       * intros [H|[_ H]]; [injection H as ->; left; reflexivity|right; exact H].
-    + split; [intros []|intros [H|[H _]]; [discriminate|contradiction]].
-    + split; [intros H; right; split; [discriminate|exact H]|intros [H|[_ H]]; [discriminate|exact H]].
+    + split; [intros []|intros [H|[H _]]; [discriminate|exfalso; apply H; left; reflexivity]].
+    + split; [intros H; right; split; [intros [C|C]; discriminate|exact H]|intros [H|[_ H]]; [discriminate|exact H]].
+    + split; [intros H; right; split; [intros [C|C]; discriminate|exact H]|intros [H|[_ H]]; [discriminate|exact H]].
+    + rewrite keys_remove. split.
+      * intros [N H]. right. split; [intros [C|C]; [discriminate|injection C as ->; apply N; reflexivity]|exact H].
+      * intros [H|[N H]]; [discriminate|]. split; [intros ->; apply N; right; reflexivity|exact H].
 Qed.
 
 Section Pass.
@@ -202,7 +224,7 @@ Section Pass.
 
   (* naming a pattern twice is the same as naming it once *)
   Theorem readd_idempotent f a : fapply (fapply f a) a = fapply f a.
-  Proof. destruct a; cbn; try reflexivity; rewrite insert_idem; reflexivity. Qed.
+  Proof. destruct a; cbn; try reflexivity; rewrite ?insert_idem, ?remove_idem; reflexivity. Qed.
 
   (* and naming again, later, a pattern that is still in force changes no verdict *)
   Theorem readd_in_force_same_verdict acts p line :
@@ -210,13 +232,13 @@ Section Pass.
   Proof.
     intros F. apply eq_true_iff_eq. rewrite !filter_spec.
     assert (A : forall q, accept_in_force q (acts ++ [Accept p]) <-> accept_in_force q acts).
-    { intros q. unfold accept_in_force. rewrite (in_force_snoc Accept). split.
+    { intros q. unfold accept_in_force. rewrite (in_force_snoc (Accept q) (kills_accept q)). split.
       - intros [H|[_ H]]; [injection H as ->; exact F|exact H].
-      - intros H. right. split; [discriminate|exact H]. }
+      - intros H. right. split; [intros [C|C]; discriminate|exact H]. }
     assert (D : forall q, deny_in_force q (acts ++ [Accept p]) <-> deny_in_force q acts).
-    { intros q. unfold deny_in_force. rewrite (in_force_snoc Deny). split.
+    { intros q. unfold deny_in_force. rewrite (in_force_snoc (Deny q) (kills_deny q)). split.
       - intros [H|[_ H]]; [discriminate|exact H].
-      - intros H. right. split; [discriminate|exact H]. }
+      - intros H. right. split; [intros [C|C]; discriminate|exact H]. }
     split; intros [[H1 H2]|[H1 (q & Hq & Hm)]].
     - left. split; intros q Hq; [apply (H1 q), A; exact Hq|apply (H2 q), D; exact Hq].
     - right. split; [intros r Hr; apply H1, D; exact Hr|exists q; split; [apply A; exact Hq|exact Hm]].
